@@ -62,12 +62,13 @@ ResOk ==
       [] OTHER -> TRUE
 PostOk == Proj(ep'[Who]) = Ev.post
 
-InvNames == <<"Fifo", "Window", "RecvBound", "NoFrmr", "SeqOk", "FrameFits", "NotBroken">>
+InvNames == <<"Fifo", "Window", "RecvBound", "NoFrmr", "SeqOk", "WinInd", "FrameFits", "NotBroken">>
 InvP(n) == CASE n = "Fifo" -> FifoP(accepted', delivered')
              [] n = "Window" -> WindowP(ep')
              [] n = "RecvBound" -> RecvBoundP(ep')
              [] n = "NoFrmr" -> NoFrmrP(ep', wire')
              [] n = "SeqOk" -> SeqOkP(ep', wire')
+             [] n = "WinInd" -> WinIndP(ep', wire')
              [] n = "FrameFits" -> FrameFitsP(ep', wire')
              [] n = "NotBroken" -> ~broken'
 AllInv == \A i \in DOMAIN InvNames : InvP(InvNames[i])
